@@ -15,6 +15,11 @@ code: introduced or inlined locals, early return vs if/else vs ternary, `not (a 
 The state epoch is bumped by every call on a self-rooted receiver, every write to a self-rooted
 attribute and every await: two reads of `self._x` in the same epoch see the same object.
 
+Terms are TEXTUAL: an attribute chain read before and after a write on the same path is the same
+text.  A rule that must tell the two apart uses the epochs of `reads` / `effects`; a local bound to an
+expression that reads state keeps denoting the value at binding time only as long as the rule checks
+the epochs (or the state is not written in between).
+
 Nothing is executed; terms are ast expressions.  Loops are opaque (`effects` gets a 'loop' entry, the
 names the body binds are havocked); `sym_block` lets a rule walk a loop body on its own.
 """
